@@ -158,6 +158,8 @@ uint32_t cop_deserialize_value(const uint8_t *buf, uint32_t buf_size,
     }
     case TAG_VOID:
     default:
+        /* A byte that is not a value tag at all is a garbled message, not a void result */
+        if (tag >= TAG_COUNT) return 0;
         *out = val_void();
         break;
     }
